@@ -11,7 +11,13 @@ import ast
 
 def read_meta(path):
     """META = dict(level=..., note=..., technique=..., ref=...) literal in a check module."""
-    tree = ast.parse(path.read_text())
+    try:
+        tree = ast.parse(path.read_text())
+    except SyntaxError:
+        # the file is being edited right now: use the committed version
+        import subprocess
+        src = subprocess.run(["git", "-C", str(V), "show", f"HEAD:{path.relative_to(V)}"], capture_output=True, text=True).stdout
+        tree = ast.parse(src)
     for node in tree.body:
         if isinstance(node, ast.Assign) and any(isinstance(t, ast.Name) and t.id == "META" for t in node.targets):
             v = node.value
